@@ -21,9 +21,11 @@ VecCases ==
   {[Blank EXCEPT !.kind = "vec", !.vec = v, !.n = n, !.cnt = (IF Tier = "quick" THEN 1 ELSE 6)] :
      v \in {"rnd", "ones", "rminus1", "hot", "first5", "small", "empty"}, n \in {0, 1, 5, 6, 255, 256}}
 LinCases == {[Blank EXCEPT !.kind = "lin", !.n = n, !.cnt = i] : n \in {1, 6, 256}, i \in 1 .. (IF Tier = "quick" THEN 2 ELSE 20)}
+(* table rows read through the hook: quick - a few rows; thorough - EVERY row of every 8-bit table (251 points x 32 windows x 128
+   entries) and the first 4096 entries of every row of the five 16-bit tables *)
 TableCases ==
-  {[Blank EXCEPT !.kind = "table", !.pos = p, !.win = w, !.cnt = 0] : p \in (IF Tier = "quick" THEN {5, 255} ELSE {5, 6, 100, 254, 255}), w \in {0, 1, 15, 31}}
-  \cup {[Blank EXCEPT !.kind = "table", !.pos = p, !.win = w, !.cnt = (IF Tier = "quick" THEN 300 ELSE 32768)] : p \in {0, 4}, w \in {0, 15}}
+  {[Blank EXCEPT !.kind = "table", !.pos = p, !.win = w, !.cnt = 0] : p \in (IF Tier = "quick" THEN {5, 255} ELSE 5 .. 255), w \in (IF Tier = "quick" THEN {0, 1, 15, 31} ELSE 0 .. 31)}
+  \cup {[Blank EXCEPT !.kind = "table", !.pos = p, !.win = w, !.cnt = (IF Tier = "quick" THEN 300 ELSE 4096)] : p \in (IF Tier = "quick" THEN {0, 4} ELSE 0 .. 4), w \in (IF Tier = "quick" THEN {0, 15} ELSE 0 .. 15)}
 Cases == DigitCases \cup VecCases \cup LinCases \cup TableCases \cup {[Blank EXCEPT !.kind = "crs"]}
 VARIABLE done
 Init == done = FALSE
